@@ -86,6 +86,14 @@ struct GeoSpec
   int minz = 0;
   float origin_planes = 0.F; // z origin in planes (a whole number unless testing the error branch)
   float origin_x = 0.F;
+  float dxy = 0.F; // added to the y voxel size (mm): differences around the threshold (2e-3 mm) of the constructor's x/y guard
+  // data CONTAINED in the data of the same spec without these reductions (ProjDataInfo::operator>=): a clone with reduced
+  // index ranges.  The image is laid out for the unreduced data, so the two geometries share the image grid.
+  int trim_seg = -1;            // axial range reduced in segments +-trim_seg (-1: in all segments)
+  int trim_lo = 0, trim_hi = 0; // axial positions removed at the lower / upper end (set_min_/set_max_axial_pos_num)
+  int seg_cut = 0;              // outer segment pairs removed (reduce_segment_range)
+  int tang_lo = 0, tang_hi = 0; // tangential positions removed at the lower / upper end
+  bool reduced() const { return trim_lo || trim_hi || seg_cut || tang_lo || tang_hi; }
 };
 
 struct Geo
@@ -121,6 +129,33 @@ build_geo(const GeoSpec& sp, int id)
     scanner->set_intrinsic_azimuthal_tilt(sp.tilt);
   g->pdi = vh::make_pdi(scanner, sp.span, sp.max_delta, sp.N / 2 / sp.mash, sp.ntang, sp.arc, sp.tof_bins > 0 ? sp.tof_mash : 0);
   g->cyl = dynamic_cast<const ProjDataInfoCylindrical*>(g->pdi.get());
+  // the image is laid out for the unreduced data
+  const ProjDataInfo& base = *g->pdi;
+  const int base_min_tang = base.get_min_tangential_pos_num(), base_max_tang = base.get_max_tangential_pos_num();
+  const float base_sampling_s = base.get_sampling_in_s(Bin(0, 0, 0, 0));
+  const float max_s = std::max(std::fabs(base.get_s(Bin(0, 0, 0, base_max_tang))), std::fabs(base.get_s(Bin(0, 0, 0, base_min_tang))));
+  const float base_axial_sampling0 = g->cyl->get_axial_sampling(0);
+  shared_ptr<const ProjDataInfo> base_keepalive = g->pdi; // (`base` stays valid below)
+  if (sp.reduced())
+    {
+      shared_ptr<ProjDataInfo> q(base.clone());
+      if (sp.seg_cut > 0)
+        q->reduce_segment_range(q->get_min_segment_num() + sp.seg_cut, q->get_max_segment_num() - sp.seg_cut);
+      for (int s = q->get_min_segment_num(); s <= q->get_max_segment_num(); ++s)
+        if (sp.trim_seg < 0 || std::abs(s) == sp.trim_seg)
+          {
+            // (never fewer than one axial position)
+            const int lo = q->get_min_axial_pos_num(s) + sp.trim_lo, hi = q->get_max_axial_pos_num(s) - sp.trim_hi;
+            if (lo > hi)
+              continue;
+            q->set_min_axial_pos_num(lo, s);
+            q->set_max_axial_pos_num(hi, s);
+          }
+      q->set_min_tangential_pos_num(base_min_tang + sp.tang_lo);
+      q->set_max_tangential_pos_num(base_max_tang - sp.tang_hi);
+      g->pdi = q;
+      g->cyl = dynamic_cast<const ProjDataInfoCylindrical*>(g->pdi.get());
+    }
   const ProjDataInfo& p = *g->pdi;
   g->V = p.get_num_views();
   g->min_seg = p.get_min_segment_num();
@@ -130,14 +165,13 @@ build_geo(const GeoSpec& sp, int id)
   g->min_tof = p.get_min_tof_pos_num();
   g->max_tof = p.get_max_tof_pos_num();
   const float ring_spacing = scanner->get_ring_spacing();
-  g->vz = g->cyl->get_axial_sampling(0) / sp.m;
+  g->vz = base_axial_sampling0 / sp.m;
   const int nppr = static_cast<int>(std::lround(ring_spacing / g->vz));
   const int planes = (sp.R - 1) * nppr + 1 + sp.extra_lo + sp.extra_hi;
   g->minz = sp.minz;
   g->maxz = sp.minz + planes - 1;
-  g->vx = p.get_sampling_in_s(Bin(0, 0, 0, 0)) / sp.zoom;
-  g->vy = g->vx * sp.aniso;
-  const float max_s = std::max(std::fabs(p.get_s(Bin(0, 0, 0, g->max_tang))), std::fabs(p.get_s(Bin(0, 0, 0, g->min_tang))));
+  g->vx = base_sampling_s / sp.zoom;
+  g->vy = g->vx * sp.aniso + sp.dxy;
   // (at least 2 voxels: the generated reductions dnx, dny must not leave an empty image)
   const int nx = std::max(2, (sp.nx > 0 ? sp.nx : 2 * static_cast<int>(std::ceil(max_s / g->vx)) + 1) + sp.dnx);
   const int ny = sp.same_nxy ? nx : std::max(2, (sp.ny > 0 ? sp.ny : 2 * static_cast<int>(std::ceil(max_s / g->vy)) + 1) + sp.dny);
@@ -156,7 +190,8 @@ build_geo(const GeoSpec& sp, int id)
   const int max_abs_ax0 = std::max(-p.get_min_axial_pos_num(0), p.get_max_axial_pos_num(0));
   const int max_abs_tang = std::max(-g->min_tang, g->max_tang);
   const int max_abs_tof = std::max(-g->min_tof, g->max_tof);
-  t << g->V << " " << (std::fabs(g->vx - g->vy) <= 2.E-3F ? 1 : 0) << " " << (std::fabs(p.get_phi(Bin(0, 0, 0, 0))) <= 1.E-4F ? 1 : 0) << " " << (sp.tof_bins > 0 ? 1 : 0)
+  // (the x/y voxel-size guard of the constructor is the model's: the voxel sizes go over as they are, y then x)
+  t << g->V << " " << vh::hex(g->image->get_grid_spacing()[2]) << " " << vh::hex(g->image->get_grid_spacing()[3]) << " " << (std::fabs(p.get_phi(Bin(0, 0, 0, 0))) <= 1.E-4F ? 1 : 0) << " " << (sp.tof_bins > 0 ? 1 : 0)
     << " " << (sp.origin_x == 0.F ? 1 : 0) << " " << nppr << " " << g->min_seg << " " << g->max_seg << " " << g->minz << " " << g->maxz
     << " " << std::lround(4 * origin_z / g->vz) << " " << max_abs_ax0 << " " << max_abs_tang << " " << max_abs_tof;
   for (int s = g->min_seg; s <= g->max_seg; ++s)
@@ -202,6 +237,11 @@ spec_str(const GeoSpec& s)
     << " maxdelta=" << s.max_delta << " tof=" << s.tof_bins << "/" << s.tof_mash << " tilt=" << s.tilt << " zoom=" << s.zoom << " aniso=" << s.aniso << " nx=" << s.nx << "+" << s.dnx << " ny=" << s.ny << "+"
     << s.dny << " m=" << s.m
     << " extra=" << s.extra_lo << "," << s.extra_hi << " minz=" << s.minz << " originz=" << s.origin_planes << " originx=" << s.origin_x;
+  if (s.dxy != 0.F)
+    o << " dxy=" << s.dxy;
+  if (s.reduced())
+    o << " reduced(axial: segments=" << (s.trim_seg < 0 ? std::string("all") : "+-" + std::to_string(s.trim_seg)) << " -" << s.trim_lo << ",-" << s.trim_hi
+      << " segment pairs -" << s.seg_cut << " tangential -" << s.tang_lo << ",-" << s.tang_hi << ")";
   return o.str();
 }
 
